@@ -881,8 +881,10 @@ fn main() {
                     }
                 }
                 for s in &out.sigs {
-                    rep.distinct(s);
+                    rep.fine("producer_id_trigrams_in_delivery_order", s);
                 }
+                let mut wins = out.sigs.clone();
+                rep.distinct_set(&cfg.json().to_string(), &mut wins);
                 if rep.want_sample() {
                     rep.sample(|| jobj! {"config" => cfg.json(), "event_log(first 25)" => log_json(&out.log, 25)});
                 }
